@@ -117,6 +117,18 @@ impl Prop for C09 {
             v.classes.push("leading_bom");
         }
         v.outcome = hash64(&(base.is_ok(), base.as_ref().err().map(|e| e.0.clone())));
+        // whatever is not well-formed as a whole is refused by the single-document entry points, unless it lies
+        // after an explicit `...` marker (the documented tolerance); judged for the untyped target, which accepts
+        // every well-formed document
+        if c.target == 0 && base.is_ok() && !c.text.contains("...") {
+            let body = c.text.strip_prefix('\u{feff}').unwrap_or(&c.text);
+            if let Err(e) = raw::raw_events(body) {
+                if !e.contains("unknown anchor") {
+                    v.fail("malformed_input_accepted", format!("{:?}: the parser refuses the text ({}) but from_str returns {:?}", c.text, e, base));
+                    return v;
+                }
+            }
+        }
         for (name, o) in &others {
             if *o != base {
                 v.fail("entry_points_disagree", format!("{:?} into {}: from_str gives {:?} but {} gives {:?}", c.text, TARGETS[c.target as usize], base, name, o));
